@@ -4,7 +4,7 @@ tie:    (a) the C04 slice of the exhaustive single-step table (every state >= NE
         {application, custom application, Reject, Heartbeat, TestRequest, ResendRequest, GapFill, Reset} x
         MsgSeqNum in {missing, garbled, below, at, +1, far above, white space} x PossDupFlag x NewSeqNo relation):
         model step == real AsyncFIXConnection step (effects + full post-state) from the same abstract state;
-        (b) inbound HISTORIES over a 14-letter alphabet relative to the current expectation, from ACTIVE and from
+        (b) inbound HISTORIES over a 15-letter alphabet relative to the current expectation, from ACTIVE and from
         every resend-related state: exhaustive up to a depth (every node of the tree is one compared step from the
         state the REAL connection reached) and random histories run lock-step (the real object keeps its own
         state between the events; the model is stepped from its own state).
@@ -68,7 +68,7 @@ def slice_cases(rng):
 # ------------------------------------------------------------------------------------------
 LETTERS = [
     "app@", "app+1", "app+3", "app-1", "app-1pd", "app@pd", "hb@", "hb+2", "treq+1", "rr@",
-    "gf@+2", "gf+1", "reset@+5", "reset@-2",
+    "gf@+2", "gf+1", "reset@+5", "reset@-2", "reset=T",
 ]
 EXTRA_LETTERS = ["gf-1", "gf@back", "reset+2+6", "reset-1-1", "tick", "send", "app-none", "app-garbled", "logout@"]
 BACKWARD_LETTERS = {"reset@-2", "reset-1-1"}
@@ -113,6 +113,11 @@ def letter_event(a: S.AbsConn, letter: str, now: int):
         return rx("4", [(36, str(ni + 5))], ni)
     if letter == "reset@-2":
         return rx("4", [(36, str(max(1, ni - 2)))], ni)
+    if letter == "reset=T":
+        # Reset mode numbered like its own NewSeqNo, at the watermark of an open gap (else 3 above the expectation):
+        # it is journaled under the number that becomes the expectation, so the next frame collides in the journal
+        t = a.max_resend if (a.state == 12 and a.max_resend >= ni) else ni + 3
+        return rx("4", [(36, str(t))], t)
     if letter == "reset+2+6":
         return rx("4", [(123, "N"), (36, str(ni + 6))], ni + 2)
     if letter == "reset-1-1":
@@ -310,7 +315,7 @@ def correspondence(ctx):
         "canonical effect list and the complete abstract post-state (state, role, counters, watermark, TestReqID, "
         "timestamps, socket, stored counters, journal rows). (a) C04 slice of the exhaustive single-step table; "
         "(b) corpus + random letter histories (length 3-12) run lock-step; (c) exhaustive letter trees "
-        f"(14 letters, depth {depth_all} from 12 start states" + (", depth 5 from ACTIVE and from AWAITING" if ctx.tier == "thorough" else "")
+        f"(15 letters, depth {depth_all} from 12 start states" + (", depth 5 from ACTIVE and from AWAITING" if ctx.tier == "thorough" else "")
         + "), one compared step per tree node from the state the real connection reached, duplicates of a reached state "
         "expanded once. distinct = distinct (state, event) pairs of (a) + distinct histories of (b) + tree nodes of (c)",
         "samples": [{"input": {"conn": c[0].tokens()[:80], "event": S.event_tokens(c[2])[:160], "label": c[3]}}
@@ -352,7 +357,8 @@ def check_history(start: S.AbsConn, steps):
     fails = []
     pre = start
     delivered = []
-    gap = None  # (watermark, begin) of the open gap
+    # (watermark, begin) of the open gap; a history started in RESENDREQ_AWAITING starts inside one
+    gap = (start.max_resend, None) if start.state == 12 else None
     backward_seen = False
     for si, (sr, ev, L, pre_tok, eff, post_tok) in enumerate(steps):
         post = S.parse_conn_tokens(post_tok)
@@ -368,7 +374,9 @@ def check_history(start: S.AbsConn, steps):
 
         def fail(sig, what, expected=None, observed=None):
             if sig != SIG_D6 and (backward_seen or this_backward) and sig in (
-                    "C04-delivered-not-increasing", "C04-resend-wrong-range", "C04-second-resend"):
+                    "C04-delivered-not-increasing", "C04-resend-wrong-range", "C04-second-resend", "C04-gap-no-resend",
+                    "C04-delivered-past-gap", "C04-skipped-past-gap", "C04-gap-state", "C04-gap-watermark",
+                    "C04-awaiting-not-left", "C04-awaiting-left-early"):
                 sig = SIG_D6  # consequences of the counter having been moved back
             fails.append({"signature": sig, "what": what, "step": si, "expected": expected, "observed": observed})
 
@@ -441,7 +449,7 @@ def check_history(start: S.AbsConn, steps):
         if integrity_ok and seq == exp and pre.state >= 8 and mt not in ("0", "1", "2", "4", "5", "A") and not ds:
             fail("C04-expected-not-delivered", "application frame carrying the expected number was not delivered", 1, 0)
         above = integrity_ok and seq > exp and mt not in ("A", "5") and not (is_reset and not gapfill)
-        if above and pre.state >= 8 and pre.state != 12 and pre.sock:
+        if above and pre.state >= 8 and pre.sock and (pre.state != 12 or gap is None):
             if len(rrs) != 1:
                 fail("C04-gap-no-resend", "number above the expectation did not trigger exactly one ResendRequest", 1, len(rrs))
             if ds:
@@ -557,26 +565,38 @@ def oracle(ctx, disagreements, broken):
         nunit, ufails = check_set_next_num_in()
         stats["set_next_num_in_calls"] = nunit
         failures.extend(ufails[:3])
-        # 3 histories on which model and implementation disagreed
+        # 3 histories on which model and implementation disagreed, first – each also continued with a frame numbered
+        #   above the expectation and with in-sequence traffic (a wrong state / counter shows on the NEXT frames)
         if broken:
-            for d in disagreements[:200]:
-                h = d["input"].get("history")
-                if h:
+            tails = [[], ["app+3", "app@"], ["app@", "app+3", "app@"]]
+            done = set()
+            for d in disagreements[:300]:
+                inp = d["input"]
+                h = inp.get("history")
+                lab = inp.get("label") or ""
+                if h and h.get("letters"):
                     st = S.parse_conn_tokens(h["start"])
-                    if h.get("letters"):
-                        run_and_check(st, run_letters(impl, st, h["letters"]))
-                elif d["input"].get("conn"):
-                    a = S.parse_conn_tokens(d["input"]["conn"])
-                    ev = parse_event_tokens(d["input"]["event"])
-                    impl.load(a)
-                    del impl.eff[:]
-                    impl.apply(d["input"]["sr"], ev)
-                    eff, post = impl.effects(), impl.dump()
-                    steps = [(d["input"]["sr"], ev, "single", a.tokens(), eff, post)]
-                    a2 = S.parse_conn_tokens(post)
-                    # continue with in-sequence traffic so that a wrong counter shows as a delivery fault
-                    steps += [(s[0], s[1], s[2], s[3], s[4], s[5]) for s in _continue(impl, a2, ["app@", "app@", "app@"])]
-                    run_and_check(a, steps)
+                    for t in tails:
+                        run_and_check(st, run_letters(impl, st, h["letters"] + t))
+                elif lab.startswith("tree:"):
+                    path = lab[5:].split(",")
+                    if tuple(path) in done:
+                        continue
+                    done.add(tuple(path))
+                    for name, st in start_states():
+                        for t in tails[:2]:
+                            run_and_check(st, run_letters(impl, st, path + t))
+                elif inp.get("conn"):
+                    a = S.parse_conn_tokens(inp["conn"])
+                    ev = parse_event_tokens(inp["event"])
+                    for t in (["app@", "app@", "app@"], ["app+3", "app@"]):
+                        impl.load(a)
+                        del impl.eff[:]
+                        impl.apply(inp["sr"], ev)
+                        eff, post = impl.effects(), impl.dump()
+                        steps = [(inp["sr"], ev, "single", a.tokens(), eff, post)]
+                        steps += _continue(impl, S.parse_conn_tokens(post), t)
+                        run_and_check(a, steps)
         # 4 search: exhaustive short histories + random ones
         import itertools
         depth = 3 if not broken else 4
